@@ -405,7 +405,7 @@ class ArgumentParser(argparse.ArgumentParser):
         self._preprocessing(args=list(args) if args else [])
         return super().print_help(file)
 
-    def set_defaults(self, config_path: str | Path | None = None, **kwargs: Any) -> None:
+    def set_defaults(self, config_path: str | Path | None = None, /, **kwargs: Any) -> None:
         """Set the default argument values, either from a config file, or from the given kwargs."""
         if config_path:
             defaults = read_file(config_path)
